@@ -40,7 +40,7 @@ pub fn packaging_strategy() -> BoxedStrategy<Packaging> {
 pub struct ExtraPack {
     pub comp: Comp,
     pub contents: Vec<ContentSpec>,
-    /// pack id class: 0 => 2+k, then 254+k, 256+k, 300+k, 65533+k (k = 0, 1: no collision)
+    /// pack id class: 0 => 2+k, then 254+k, 256+k, 300+k, 65534+k (k = 0, 1: no collision; 65535 is the last id)
     #[serde(default)]
     pub id_class: u8,
     /// where the pack's file is written: 0 next to the entry point, 1 in a sub-directory of the
@@ -76,7 +76,7 @@ impl ExtraPack {
         }
     }
     pub fn pack_id(&self, k: usize) -> u16 {
-        [2u16, 254, 256, 300, 65533][(self.id_class % 5) as usize] + k as u16
+        [2u16, 254, 256, 300, 65534][(self.id_class % 5) as usize] + k as u16
     }
 }
 
